@@ -74,7 +74,7 @@ TABLE = {
 
 
 # properties whose check has been reviewed and committed by the lead
-READY = {"C01"}
+READY = {"C01", "C06"}
 
 
 def main() -> int:
